@@ -148,6 +148,8 @@ def credentials(t, pick=None, legacy_pw=None):
             return bad + ":" + good, None
         return raw_key(concrete_len(form, n, pick), "srv-" + CANON.get(cipher, cipher)), None
     if proto == "vmess":
+        if form == "notuuid":
+            return "not-a-uuid-at-all", ([{"name": "u0", "password": "not-a-uuid-at-all"}] if side == "server" else None)
         return e2e.UUIDS[0], None
     if proto == "shadowsocks" or proto not in ("trojan",):
         return legacy_pw or "correct horse battery", None
@@ -477,8 +479,8 @@ def model(c):
     if not r.replay:
         raise vlib.ToolError("no configuration tuples exported")
     seen = {}
-    jobs = [dict(module="Config", cfg="Config_dev_%s.cfg" % k, workers=2, timeout=300) for k in ("QuicNoTcp", "ShortKeyPadded", "UdpModeExits", "VMessAnyCipher")]
-    for k, d in zip(("QuicNoTcp", "ShortKeyPadded", "UdpModeExits", "VMessAnyCipher"), vlib.tlc_parallel(jobs, parallel=4)):
+    jobs = [dict(module="Config", cfg="Config_dev_%s.cfg" % k, workers=2, timeout=300) for k in ("QuicNoTcp", "ShortKeyPadded", "UdpModeExits", "VMessAnyCipher", "VMessIdCheckedLate")]
+    for k, d in zip(("QuicNoTcp", "ShortKeyPadded", "UdpModeExits", "VMessAnyCipher", "VMessIdCheckedLate"), vlib.tlc_parallel(jobs, parallel=5)):
         seen[k] = d.violated
         if d.violated != "ImplConforms":
             raise vlib.ToolError("anti-vacuity: deviation %s not detected by the Config model" % k)
